@@ -1053,6 +1053,188 @@ def w_ods(repo, tier):
     return a
 
 
+# ========================================================================= RTF ==
+CRX, CMATCH = {}, {}        # side tables: term id -> compiled pattern / match object of the REAL re module
+
+
+def install_concrete_re(reg, rel, repo):
+    """`re` on CONCRETE strings is evaluated by the real `re` module (a pure library function on known arguments); the
+    module-level `_RE_* = re.compile(<literals>)` constants are compiled from their real source text."""
+    import ast as _ast
+    import re as _re
+
+    def rx(c):
+        v = VExt("CRegex")
+        CRX[v.t.get_id()] = c
+        return v
+
+    def mt(m):
+        if m is None:
+            return NONE
+        v = VExt("CMatch")
+        CMATCH[v.t.get_id()] = m
+        return v
+    m = loader.module(rel, repo)
+    for name, node in m.assigns.items():
+        if isinstance(node, _ast.Call) and _ast.unparse(node.func) == "re.compile":
+            try:
+                reg.module_consts[(rel, name)] = rx(eval(compile(_ast.Expression(node), "<module constant>", "eval"), {"re": _re}))
+            except Exception:  # noqa
+                pass
+
+    def consts(ex, vals):
+        out = [ex.py_const(v) for v in vals]
+        return None if any(type(x).__name__ == "_NCType" for x in out) else out
+
+    def m_compile(ex, st, a, k, n):
+        c = consts(ex, list(a) + list(k.values()))
+        if c is None:
+            return ex.havoc_call(st, "re.compile(symbolic)", [], n)
+        return [(st, rx(_re.compile(*c[:len(a)], **dict(zip(k, c[len(a):])))))]
+    reg.ext_models["re.compile"] = m_compile
+    reg.ext_models["re.escape"] = lambda ex, st, a, k, n: [(st, VStr(_re.escape(a[0].const())))] if isinstance(a[0], VStr) and a[0].const() is not None else ex.havoc_call(st, "re.escape", [], n)
+    for flag in ("DOTALL", "IGNORECASE", "MULTILINE"):
+        reg.ext_models[("const", f"re.{flag}")] = VInt(int(getattr(_re, flag)))
+
+    def m_resplit(ex, st, a, k, n):
+        c = consts(ex, a)
+        if c is None or k:
+            return ex.havoc_call(st, "re.split(symbolic)", [], n)
+        return [(st, ex.new_list(st, [ops.lift(x) for x in _re.split(*c)]))]
+    reg.ext_models["re.split"] = m_resplit
+
+    def meth(name):
+        def model(ex, st, o, a, k, n):
+            pat = CRX[o.t.get_id()]
+            if name == "sub" and len(a) == 2 and isinstance(a[0], V) and type(a[0]).__name__ == "VFunc":
+                subject = a[1].const() if isinstance(a[1], VStr) else None
+                if subject is None:
+                    return ex.havoc_call(st, "sub(symbolic)", [], n)
+                out, pos = [], 0
+                for m_ in pat.finditer(subject):
+                    r = ex.call(st, a[0], [mt(m_)], {}, n)
+                    if len(r) != 1 or not isinstance(r[0][1], VStr) or r[0][1].const() is None:
+                        raise Unsupported(f"{ex.loc(n)} regex replacement callback forks or is symbolic")
+                    st = r[0][0]
+                    out.append(subject[pos:m_.start()] + r[0][1].const())
+                    pos = m_.end()
+                return [(st, VStr("".join(out) + subject[pos:]))]
+            c = consts(ex, a)
+            if c is None or k:
+                return ex.havoc_call(st, f"regex.{name}(symbolic)", [], n)
+            r = getattr(pat, name)(*c)
+            if name == "finditer":
+                return [(st, VTuple([mt(x) for x in r]))]
+            if name in ("search", "match", "fullmatch"):
+                return [(st, mt(r))]
+            if name in ("findall", "split"):
+                return [(st, ex.new_list(st, [ops.lift(x) for x in r]))]
+            return [(st, ops.lift(r))]
+        return model
+    for nm in ("finditer", "sub", "search", "match", "fullmatch", "findall", "split"):
+        reg.method_models[("CRegex", nm)] = meth(nm)
+
+    def mmeth(name):
+        def model(ex, st, o, a, k, n):
+            c = consts(ex, a)
+            r = getattr(CMATCH[o.t.get_id()], name)(*(c or []))
+            return [(st, ops.lift(r))]
+        return model
+    for nm in ("start", "end", "group", "groups", "span"):
+        reg.method_models[("CMatch", nm)] = mmeth(nm)
+
+
+RTF = EXTR + "ms_legacy/rtf_extractor.py"
+RTF_FILLER = "Between the tables stands a paragraph that is long enough to count as running text of the document and not as part of a table row at all."
+RTF_LAYOUTS = (("\n", "\\intbl "), ("", "\\intbl "), ("\n", " "), ("\r\n", "\\pard\\intbl "))
+
+
+def rtf_tok(path):
+    import re as _re
+    return "w" + _re.sub(r"[^0-9a-z]", "", path)
+
+
+def rtf_text(doc, row_sep, cell_prefix):
+    """the same serialisation as replay/C13.py::rtf_bytes (rows joined by row_sep: '' = back to back)"""
+    out = "{\\rtf1\\ansi\\deff0{\\fonttbl{\\f0 Arial;}}\\pard Intro paragraph\\par "
+    prev_table = False
+    for bi, b in enumerate(doc):
+        if not is_table(b):
+            out += "\\pard " + RTF_FILLER + " " + rtf_tok(f"b{bi}") + "\\par "
+            prev_table = False
+            continue
+        if prev_table:
+            out += "\\pard " + RTF_FILLER + "\\par "
+        rows = []
+        for ri, r in enumerate(b["rows"]):
+            defs = "".join(f"\\cellx{1500 * (i + 1)}" for i in range(len(r)))
+            cells = ""
+            for ci, c in enumerate(r):
+                pars = ["" if it == "e" else rtf_tok(f"b{bi}.r{ri}c{ci}i{ii}") for ii, it in enumerate(c) if not is_table(it)]
+                cells += cell_prefix + "\\par ".join(pars) + "\\cell"
+            rows.append(f"\\trowd\\trgaph108{defs}{cells}\\row")
+        out += row_sep.join(rows)
+        prev_table = True
+    return out + "\\pard After\\par}"
+
+
+def rtf_docs():
+    P = ["p"]
+    return [[T([[P]])], [T([[P, P]])], [T([[P], [P]])], [T([[P, P], [P, P]])], [T([[P, P], [P, P], [P, P]])],
+            [T([[[], P], [P, []]])], [T([[["p", "p"], P]])], [T([[P]]), T([[P, P], [P, P]])], [T([[P], [P]]), "p", T([[P], [P]])], ["p", T([[P, P]])]]
+
+
+def w_rtf(repo, tier):
+    """_RtfParser._extract_tables (+ _extract_table_cells, _save_table, _strip_rtf_simple, _remove_ignorable_groups) executed by
+    the engine on CONCRETE RTF sources: rectangular tables up to 3 x 2 / 4 x 1, empty and two-paragraph cells, two tables
+    separated by running text, rows newline-separated / CRLF / written back to back, two cell layouts.  (RTF has no table
+    delimiter and pads ragged rows; nested tables are not generated.)"""
+    def inst(reg):
+        import bisect as _bisect
+        install_concrete_re(reg, RTF, repo)
+
+        def conc(fn):
+            def model(ex, st, a, k, n):
+                items = ex.concrete_items(st, a[0]) if a else None
+                vals = [ex.py_const(x) for x in (items or [])] + [ex.py_const(x) for x in a[1:]]
+                if items is None or k or any(not isinstance(v, int) for v in vals):
+                    return ex.havoc_call(st, "bisect(symbolic)", [], n)
+                return [(st, VInt(fn(vals[:len(items)], *vals[len(items):])))]
+            return model
+        for nm in ("bisect_left", "bisect_right", "bisect"):     # stdlib bisect on concrete ints: evaluated by the real function
+            reg.ext_models[f"bisect.{nm}"] = conc(getattr(_bisect, nm))
+    run = Run(RTF, repo, inst)
+    ex = run.ex
+    tally = Tally("C13/rtf_extractor.py::_RtfParser._extract_tables", CLAUSES)
+    cases = [(d, lay) for d in rtf_docs() for lay in (RTF_LAYOUTS if tier == "thorough" else RTF_LAYOUTS[:2])]
+    for doc, (sep, pre) in my_part(cases):
+        shape = {"doc": doc, "row_separator": sep, "cell_prefix": pre}
+        feats = features(doc) + (["rows_back_to_back"] if sep == "" else [])
+        want = [[[z3.StringVal("\n".join("" if it == "e" else rtf_tok(f"b{bi}.r{ri}c{ci}i{ii}") for ii, it in enumerate(c) if not is_table(it)))
+                  for ci, c in enumerate(r)] for ri, r in enumerate(b["rows"])] for bi, b in enumerate(doc) if is_table(b)]
+        try:
+            st = State()
+            me = VRef(st.alloc(HeapObj("obj", {}, "_RtfParser", fresh=False), ex.refs))
+            states, raises = run.method(st, me, "_RtfParser", "__init__", [VUnk("data")])
+            rets = []
+            for s0 in states:
+                r, x = run.method(s0, me, "_RtfParser", "_extract_tables", [VStr(rtf_text(doc, sep, pre))])
+                rets.extend(r)
+                raises.extend(x)
+        except Unsupported as e:
+            for k in CLAUSES:
+                tally.record(k, "unknown", shape, feats, f"OUT-OF-SUBSET {e}"[:200])
+            continue
+        feas = [r for r in raises if _feasible(r[0].pc)]
+        tally.record(CLAUSES[0], "refuted" if feas else "proved", shape, feats, "an exception can escape" if feas else "")
+        if not rets:
+            for k in CLAUSES[1:]:
+                tally.record(k, "refuted", shape, feats, "no normal outcome")
+        for s in rets:
+            compare(tally, s.pc, to_py(s, s.obj(me.ref).data["tables"]), want, shape, feats)
+    return {"obligations": tally.obligations(RTF)}
+
+
 # ======================================================== iterate_tables plumbing ==
 def w_iter(repo, tier):
     """every `iterate_tables` of data_types.py yields, in order, exactly the tables stored on the object / on its units
@@ -1111,4 +1293,4 @@ def w_iter(repo, tier):
     return {"obligations": tally.obligations(DTYPES)}
 
 
-WALKERS = [w_docx, w_odt, w_odp, w_pptx, w_html, w_epub, w_xlsx, w_xls, w_ods, w_iter]
+WALKERS = [w_docx, w_odt, w_odp, w_pptx, w_html, w_epub, w_xlsx, w_xls, w_ods, w_iter, w_rtf]
